@@ -44,7 +44,7 @@ def run_verus(gen_path, rlimit=None, threads=8, extra=None, timeout=1800):
 DEFINITE = ('postcondition not satisfied', 'precondition not satisfied', 'invariant not satisfied',
             'assertion failed', 'possible arithmetic underflow/overflow', 'possible division by zero',
             'recommendation not met', 'loop invariant', 'decreases not satisfied', 'unreachable',
-            'possible bit shift', 'cannot show', 'failed to prove', 'might fail')
+            'possible bit shift', 'cannot show', 'failed to prove', 'might fail', 'unable to prove', 'cannot prove')
 
 
 def classify(diag):
